@@ -141,8 +141,10 @@ def draw_system(rng, seed: int, prop: str, *, families=("single",) * 6 + ("cross
         b = space.paired_layout(rng, a, **lay)
         c = space.paired_layout(rng, a, **lay)
         descs.update(A0=a, B0=b, C0=c)
-        descs["A1"] = space.same_structure(rng, a)
-        descs["B1"] = space.same_structure(rng, b)
+        # same number of views, other values and another sample count (per-view state must not survive)
+        n1 = a["sample"][0][1] + rng.choice([0, 4, -3])
+        descs["A1"] = space.same_structure(rng, a, n_samples=n1)
+        descs["B1"] = space.same_structure(rng, b, n_samples=n1)
         fits["F0"] = {"views": ["A0", "B0"]}
         fits["F1"] = {"views": ["A1", "B1"]}
         fits["F2"] = {"views": ["A0", "B0", "C0"]}
